@@ -6,3 +6,10 @@
 #![allow(dead_code, clippy::all)]
 
 pub mod clock;
+pub mod dashmap;
+pub mod lock;
+pub mod map;
+pub mod fs;
+pub mod paths;
+pub mod cache;
+pub mod shim;
